@@ -298,6 +298,7 @@ type calleeInfo struct {
 	pnames []string // parameter names incl. receiver first (when there is one)
 	fn     *ssa.Function
 	bind   []Val // closure bindings
+	isFn   *ssa.Function // set when a callback contract says "is f": the called value must equal f's function constant
 }
 
 func (e *Exec) lookupCallee(common *ssa.CallCommon, fnv Val) calleeInfo {
@@ -309,6 +310,16 @@ func (e *Exec) lookupCallee(common *ssa.CallCommon, fnv Val) calleeInfo {
 		keys := []string{typeString(common.Value.Type()) + "." + m.Name()}
 		if recv := sig.Recv(); recv != nil {
 			keys = append(keys, typeString(recv.Type())+"."+m.Name())
+		}
+		if it, ok := common.Value.Type().(*types.Interface); ok {
+			// unnamed interface type: <pkg of the calling function>.interface{M1,M2}.M (no spaces, so that it can be a contract id)
+			var ms []string
+			for i := 0; i < it.NumMethods(); i++ {
+				ms = append(ms, it.Method(i).Name())
+			}
+			if pk := pkgOf(e.fn); pk != nil {
+				keys = append(keys, shortPath(pk.Path())+".interface{"+strings.Join(ms, ",")+"}."+m.Name())
+			}
 		}
 		ci.name = keys[0]
 		for _, k := range keys {
@@ -421,6 +432,27 @@ func (e *Exec) lookupCallee(common *ssa.CallCommon, fnv Val) calleeInfo {
 			break
 		}
 	}
+	if ci.con != nil && ci.con.Is != "" {
+		// the callback is declared to be exactly one static function: obligation callee.is at the call, then that function's contract
+		tfn := e.c.P.Funcs[ci.con.Is]
+		if tfn == nil {
+			panic(unsupportedErr(fmt.Sprintf("callback %s: is %s: no such function", ci.con.ID, ci.con.Is)))
+		}
+		ci.con.Used = true
+		ci.isFn = tfn
+		ci.fn = tfn
+		ci.sig = tfn.Signature
+		ci.name = shortID(tfn.String())
+		ci.con = CS.ByID["func "+ci.name]
+		ci.pnames = nil
+		for _, p := range tfn.Params {
+			ci.pnames = append(ci.pnames, p.Name())
+		}
+		if ci.con != nil && len(ci.con.Params) > 0 {
+			ci.pnames = ci.con.Params
+		}
+		return ci
+	}
 	for i := 0; sig != nil && i < sig.Params().Len(); i++ {
 		n := sig.Params().At(i).Name()
 		if n == "" || n == "_" {
@@ -491,6 +523,10 @@ func (e *Exec) doCall(common *ssa.CallCommon, fnv Val, recv *Val, args []Val, st
 	key := ci.name
 	e.callOrd[key]++
 	ord := e.callOrd[key]
+	if ci.isFn != nil {
+		fc := c.fnConst(ci.isFn)
+		c.oblige("callee", fmt.Sprintf("callee.is@call%d:%s", ord, lastSeg(ci.name)), st.pc, fmt.Sprintf("(= %s %s)", fnv.T, fc.T), "the function value called here is "+ci.name+" (declared by the callback contract)", e.pos(pos))
+	}
 	tracks := e.matchTracks(common)
 	e.ghostAt(ci.name, ord, true, st)
 	defer e.ghostAt(ci.name, ord, false, st)
